@@ -4,6 +4,7 @@ C15.a key agreement at every level of the assembly JSON, including the key -> fi
       and the optional-field discipline (read with .get  <->  written under `is not None`)
 C15.b the PUSH0 spelling is the only place where an item's name may change between parse and serialise
 C15.c PUSHLIB index / real value: `value` is renumbered only for PUSHLIB and the writer emits real_value
+C15.d per-section containers of the serialiser are fresh
 """
 import ast
 
